@@ -405,6 +405,78 @@ def check_decimal(res, cls_name, shape, dec, ptxt):
         res.violation("C12|%s|str-roundtrip|decimal-coefficient" % cls_name, "%r prints as %r, which does not parse back to an equal %s (%r)" % (text, printed, cls_name, same), case, printed, text)
 
 
+WS_LINES = ["A + (2 B) -> C + 2 D; 7", "2 H2O + (H+) -> H3O+ + (H2O); 1e-30", "(NH4)2SO4 + 3 A -> (2 NO3-') + B; 'k1'", "A -> B"]
+
+
+def _ws_variants(text):
+    """the same line with blanks doubled at every single position where one blank stands, blanks added around the outermost
+    parentheses' inside, around the arrow and the semicolons, and leading / trailing blanks and a trailing newline (blanks only:
+    a tab is refused by chempy, which is a refusal and not a misreading)"""
+    out = []
+    for i, ch in enumerate(text):
+        if ch == " ":
+            out.append(text[:i] + "  " + text[i + 1:])
+    out += ["  " + text, text + "  ", text + "\n", " " + text + " \n"]
+    out += [text.replace(";", " ;"), text.replace(";", ";  ")]
+    if " + (" in text and not text.startswith("("):  # (blanks inside the parentheses of an inactive group — not inside a species key)
+        i = text.index(" + (") + 3
+        j = text.index(")", i)
+        out += [text[: i + 1] + " " + text[i + 1:], text[:j] + " " + text[j:]]
+    return sorted(set(v for v in out if v != text))
+
+
+def check_whitespace(res, cls_name, li):
+    import chempy
+
+    cls = getattr(chempy, cls_name)
+    base_text = WS_LINES[li] if cls_name == "Reaction" else WS_LINES[li].replace("->", "=")
+    if cls_name == "Equilibrium" and "'k1'" in base_text:
+        return
+    try:
+        base = cls.from_string(base_text)
+    except Exception as e:
+        res.violation("C12|%s.from_string|whitespace|base-line-rejected" % cls_name, "%r raised %s" % (base_text, type(e).__name__), dict(kind="whitespace", cls=cls_name, li=li, v=-1), "EXC", None)
+        return
+    exp = (dict(base.reac), dict(base.prod), dict(base.inact_reac), dict(base.inact_prod), _param_obs(base.param))
+    for n, text in enumerate(_ws_variants(base_text)):
+        res.states += 1
+        res.transitions += 1
+        res.evaluations += 1
+        res.nontrivial += 1
+        try:
+            r = cls.from_string(text)
+            got = (dict(r.reac), dict(r.prod), dict(r.inact_reac), dict(r.inact_prod), _param_obs(r.param))
+        except Exception as e:
+            got = "EXC %s" % type(e).__name__
+        res.outcomes["whitespace-ok" if got == exp else "whitespace-WRONG"] += 1
+        if got != exp:
+            res.violation("C12|%s.from_string|whitespace|%s" % (cls_name, "rejected" if isinstance(got, str) else "misread"), "%s.from_string(%r) read %r; the line without the extra blanks reads %r" % (cls_name, text, got, exp),
+                          dict(kind="whitespace", cls=cls_name, li=li, v=n), repr(got), repr(exp))
+
+
+def check_system_unknown_key(res):
+    """a system text read against a list of allowed keys that lacks one of the keys used: refused, whatever the settings of the
+    constructor checks"""
+    from chempy import ReactionSystem
+
+    text = "H2O -> H+ + OH-; 1e-4\nH+ + OH- -> H2O; 1e10"
+    for subs in ("H2O H+", "H2O OH-", "H+ OH-"):
+        for kname, kw in (("default", {}), ("checks=()", dict(checks=())), ("dont_check={'substance_keys'}", dict(dont_check={"substance_keys"})),
+                          ("checks=(),missing_substances_from_keys=False", dict(checks=(), missing_substances_from_keys=False))):
+            res.states += 1
+            res.transitions += 1
+            res.evaluations += 1
+            res.nontrivial += 1
+            try:
+                rs = ReactionSystem.from_string(text, subs, **kw)
+                got = "accepted with substances %r" % (list(rs.substances),)
+            except Exception as e:
+                got = "EXC %s" % type(e).__name__
+            res.outcomes["system-unknown-key-%s" % ("refused" if got.startswith("EXC") else "ACCEPTED")] += 1
+            if not got.startswith("EXC"):
+                res.violation("C12|ReactionSystem.from_string|unknown-key-accepted|%s" % kname, "ReactionSystem.from_string(%r, %r, %s): %s" % (text, subs, kname, got), dict(kind="system-unknown-key", subs=subs, kname=kname), got, "an exception")
+
+
 def check_copy_overrides(res, cls_name):
     """copy(param=...) / copy(name=...) replace exactly what is named, also by a falsy value (0, 0.0, '', None)"""
     import chempy
@@ -516,6 +588,10 @@ def run_chunk(chunk, tier):
         check_dont_check_history(res, chunk[1])
         check_context_history(res, chunk[1])
         check_copy_overrides(res, chunk[1])
+        if chunk[1] == "Reaction":
+            check_system_unknown_key(res)
+        for li in range(len(WS_LINES)):
+            check_whitespace(res, chunk[1], li)
         res.sample(dict(layer="DC", cls=chunk[1], coefficients=DEC, example="H2O2 -> 0.5 O2 + H2O; 4.2e-3"))
         return res
     if chunk[0] == "Y":
@@ -549,7 +625,15 @@ def run_chunk(chunk, tier):
 
 def replay(case):
     res = Result()
-    if case.get("kind") == "copy-override":
+    if case.get("kind") == "system-unknown-key":
+        sub = Result()
+        check_system_unknown_key(sub)
+        res.violations = [v for v in sub.violations if v["case"] == case]
+    elif case.get("kind") == "whitespace":
+        sub = Result()
+        check_whitespace(sub, case["cls"], case["li"])
+        res.violations = [v for v in sub.violations if v["case"] == case]
+    elif case.get("kind") == "copy-override":
         sub = Result()
         check_copy_overrides(sub, case["cls"])
         res.violations = [v for v in sub.violations if v["case"] == case]
